@@ -61,6 +61,8 @@ def cases(tier, seed):
                 continue
             for grp in groups:
                 out.append({"graph": name, "target": "jointof:" + e, "mode": "given", "chosen": grp, "shape": [2], "seed": 12345})
+                # and the density itself with that one parameter batched ("some"): three samples, the same values in every run
+                out.append({"graph": name, "target": e, "mode": "given", "chosen": grp, "shape": [3], "seed": 4321})
         # the composite joints with one parameter batched and the number of samples equal to another dimension of the graph
         # (vector lengths 2..5: a component that is not batched then has as many entries as there are samples)
         for e in [x for x in g["evals"] if x in ("joint", "inner")]:
